@@ -237,6 +237,9 @@ def parse_operand(s):
 def parse_rvalue(s):
     s = s.strip()
     try:
+        if s.startswith('no_retag copy ') and _top_level_as(s) < 0:
+            # deref temporary of a Box: the Box pointer is copied, the boxed value is NOT (see interp: boxalias)
+            return ('use_alias', parse_operand(s[9:]))
         if s.startswith('no_retag '):
             s = s[9:]
         if s.startswith(('copy ', 'move ', 'const ')):
